@@ -281,8 +281,10 @@ ABSat(H, law, i) == IF law = "ABAnswers" THEN ~H.raised /\ (H.typeerror => H.int
 (* ---- filter_thru history (one wavelength solution, one mask) ----                       *)
 (* H.nq         number of (trace, band) slots; slot q = (trace-1)*5 + band                 *)
 (* H.overlap[q] the wavelengths of that trace overlap the band                             *)
-(* H.fluxes[f]  = [const, cres, lo, hi, mlo, mhi]  cres: id of the pseudo-result "c in      *)
-(*              every slot" (0 if not constant); lo/hi (mlo/mhi): ids of the pseudo-results *)
+(* H.fluxes[f]  = [const, cres, lo, hi, mlo, mhi]  const: every trace of the flux is a       *)
+(*              constant spectrum (c_t, its own value per trace); cres: id of the pseudo-    *)
+(*              result "c_t in every slot of trace t" (0 if not constant); lo/hi (mlo/mhi):  *)
+(*              ids of the pseudo-results, judged per trace,                                 *)
 (*              min / max of the trace's flux over all (over unmasked) pixels              *)
 (* H.lin[j]     = [z, a, x, b, y]  flux z = a * flux x + b * flux y  (by construction)      *)
 (* H.meq[j]     = [x, y]           fluxes x and y differ only at masked pixels             *)
